@@ -16,3 +16,4 @@ def run(rep):
     cr.rule_skel(rep, "C09.skel")
     cr.rule_fields(rep, "C09.sites")
     cr.rule_steps(rep, rid_sites="C09.sites", want=("sites",))
+    cr.rule_input(rep, "C09.isolation")
